@@ -607,6 +607,22 @@ func (x *codecExec) stmt(st ast.Stmt) []codecTok {
 					}
 				}
 			}
+			// clamp of a text to the width of its length prefix: `if len(v) > K { v = v[:K] }` - the value is cut before both its
+			// length and its bytes are written, so prefix and payload stay paired (a domain restriction of the writer)
+			if x.writer && len(s.Body.List) == 1 && s.Else == nil {
+				if a, ok := s.Body.List[0].(*ast.AssignStmt); ok && len(a.Lhs) == 1 && len(a.Rhs) == 1 {
+					if se, ok := ast.Unparen(a.Rhs[0]).(*ast.SliceExpr); ok && se.Low == nil && se.High != nil && ObjOf(x.info, se.X) != nil && ObjOf(x.info, se.X) == ObjOf(x.info, a.Lhs[0]) {
+						if be, ok := ast.Unparen(s.Cond).(*ast.BinaryExpr); ok && be.Op == token.GTR && types.ExprString(be.Y) == types.ExprString(se.High) {
+							if call, ok := ast.Unparen(be.X).(*ast.CallExpr); ok && len(call.Args) == 1 && ObjOf(x.info, call.Args[0]) == ObjOf(x.info, a.Lhs[0]) {
+								if id, ok := ast.Unparen(call.Fun).(*ast.Ident); ok && id.Name == "len" {
+									x.bounds = append(x.bounds, "clamp if "+condSym)
+									return out
+								}
+							}
+						}
+					}
+				}
+			}
 			x.problem(s.Pos(), "unrecognised conditional computation on %s", condSym)
 			return out
 		}
